@@ -126,6 +126,11 @@ class C16(Engine):
         rng0 = core.derive_rng("c16.edge", self.seed, 0)
         srcs = [f for f in sorted(P.files) if P.meta[f]["group"] in ("gen", "special_clean", "special_erroneous", "viol")]
         self.edge_ids = []
+        # contents without any line feed whose literals carry escape sequences: what a caller that "cannot pass a line feed" might
+        # be thought to mean by backslash-n is not what the C text means
+        for k, c2 in enumerate(("char\tg_nl = '\\n';", "char\t*g_s = \"a\\tb\\n\";", "int\tg_a = '\\t' + '\\\\' + '\\n';",
+                                "# define NL '\\n'")):
+            self.edge_ids.append(P.add("edge", f"oneline{k}.{'h' if c2.startswith('#') else 'c'}", c2, f"oneline:{k}"))
         for b in rng0.sample(srcs, min(4 if self.tier == "quick" else 40, len(srcs))):
             c = P.files[b]["content"]
             for tag, c2 in (("+sp", c + " "), ("+tab", c + "\t"), ("-nl", c.rstrip("\n")), ("+nl", c + "\n"), ("sp+", " " + c),
